@@ -24,7 +24,7 @@ LEVEL = "model_checking"
 RULE = (
     "parent machine with one root-level event per actor operation: spawnChild with id / with id+systemId / anonymous (explicit ids in a prefix relation 'a' / 'ab', generated ids made of the names used for addressing), "
     "spawn_<service> action, sendTo by id / systemId / service key / unknown name, forwardTo, delayed sendTo with a "
-    "send id, a second delayed send reusing the id, cancel(id), stopChild by id / systemId, child spawning a grandchild that registers a systemId of its own, "
+    "send id, a second delayed send reusing the id, cancel(id), two id-less delayed sends of one event type to different addressees pending at once, stopChild by id / systemId, child spawning a grandchild that registers a systemId of its own, "
     "escalate, TICK (virtual time passes), stop; BFS over operation sequences to the depth bound, deduplicated by "
     "(canonical implementation state, reference-model state); after EVERY step the implementation is compared with a "
     "dictionary reference model: children map, registry, per-actor received sequence numbers, parent's "
@@ -43,7 +43,7 @@ ASSUMPTIONS = [
 ]
 ENGINES = ("sync", "async")
 OPS = ["SP_ID", "SP_SYS", "SP_ANON", "SP_ACT", "SEND_A", "SEND_SYS", "SEND_KEY", "SEND_UNK", "FWD", "SEND_D", "SEND_D2",
-       "CANCEL", "STOP_A", "STOP_SYS", "GRAND", "ESC", "BEAT_START", "BEAT_CANCEL", "TICK", "STOP"]
+       "CANCEL", "SEND_N", "STOP_A", "STOP_SYS", "GRAND", "ESC", "BEAT_START", "BEAT_CANCEL", "TICK", "STOP"]
 
 
 def seq_event(etype):
@@ -91,6 +91,8 @@ def make(rec) -> Dict[str, Any]:
         "SEND_D": {"actions": [A.send_to("a", seq_event("MSG"), delay=300, send_id="d1")]},
         "SEND_D2": {"actions": [A.send_to("a", seq_event("MSG"), delay=200, send_id="d1")]},
         "CANCEL": {"actions": [A.cancel("d1")]},
+        # two delayed sends WITHOUT a send id, same event type, different addressees, pending at once
+        "SEND_N": {"actions": [A.send_to("a", seq_event("MSG"), delay=300), A.send_to("sysb", seq_event("MSG"), delay=200)]},
         "STOP_A": {"actions": [A.stop_child("a")]},
         "STOP_SYS": {"actions": [A.stop_child("sysb")]},
         "GRAND": {"actions": [A.send_to("a", "GRAND")]},
@@ -115,6 +117,7 @@ class Model:
         self.registry: Dict[str, str] = {}
         self.acks: List[int] = []
         self.pending: Optional[Tuple[float, int, int]] = None  # (due, n, generation of the target) of delayed send d1
+        self.nosid: List[Tuple[float, str, int, int]] = []       # id-less delayed sends: (due, target id, n, generation)
         self.gen: Dict[str, int] = {}
         self.now = 0.0
         self.stopped = False
@@ -125,7 +128,7 @@ class Model:
     def key(self) -> tuple:
         return (
             tuple(sorted((k, tuple(v["recv"]), tuple(sorted(v["kids"]))) for k, v in self.actors.items())),
-            tuple(sorted(self.registry.items())), tuple(self.acks), self.pending is not None, self.stopped, self.escalated,
+            tuple(sorted(self.registry.items())), tuple(self.acks), self.pending is not None, len(self.nosid), self.stopped, self.escalated,
             None if self.beat_due is None else round(self.beat_due - self.now, 6),
         )
 
@@ -194,6 +197,14 @@ class Model:
                 exp["warn"] = True
         elif op == "CANCEL":
             self.pending = None
+        elif op == "SEND_N":
+            missing = 0
+            for tgt, delay in (("m:a", 0.3), (self.registry.get("sysb"), 0.2)):
+                if tgt is not None and tgt in self.actors:
+                    self.nosid.append((self.now + delay, tgt, n, self.gen[tgt]))
+                else:
+                    missing += 1
+            exp["warn"] = missing > 0
         elif op == "STOP_A":
             if "m:a" in self.actors:
                 self.kill("m:a")
@@ -225,6 +236,10 @@ class Model:
                 exp["beats"] += 1
                 self.beat_due += 0.25
             self.now += 1.0
+            for due, tgt, pn, g in sorted(self.nosid):
+                if tgt in self.actors and self.gen[tgt] == g:
+                    self.deliver(tgt, pn)
+            self.nosid = []
             if self.pending is not None:
                 due, pn, g = self.pending
                 self.pending = None
@@ -237,6 +252,7 @@ class Model:
             self.actors.clear()
             self.registry.clear()
             self.pending = None
+            self.nosid = []
             self.beat_due = None
         return exp
 
